@@ -393,17 +393,28 @@ func (c *Ctx) checkAddressPattern() {
 				}
 				usesRes := ec.Call.Args[0] == ssa.Value(cc) || ec.Call.Args[1] == ssa.Value(cc)
 				exits := boolEdges(scrub, true, func(v ssa.Value) bool { return v == ssa.Value(ec) })
-				// the not-equal edge goes round again without passing the equal edge's target
-				again := false
-				for _, ed := range boolEdges(scrub, false, func(v ssa.Value) bool { return v == ssa.Value(ec) }) {
-					for _, ex := range exits {
-						exitTo := ex.To()
-						if exitTo == ed.To() {
-							continue
+				notEq := boolEdges(scrub, false, func(v ssa.Value) bool { return v == ssa.Value(ec) })
+				// on the not-equal outcome the same pattern is applied again: from the branch that tests the
+				// comparison, with the equal edges cut, no path reaches a return or the place where the next
+				// pattern is taken without passing through the replacement call first
+				var patDef *ssa.BasicBlock
+				if in, okI := strip(cc.Call.Args[0]).(ssa.Instruction); okI && in.Block() != cc.Block() && inCycle(in.Block()) {
+					patDef = in.Block()
+				}
+				again := len(notEq) > 0
+				for _, ed := range notEq {
+					esc := psSearch(ed.From, exits, func(b *ssa.BasicBlock) bool { return b == cc.Block() && b != ed.From }, func(b *ssa.BasicBlock) bool {
+						if b == ed.From {
+							return false
 						}
-						if psSearch(ed.To(), nil, func(b *ssa.BasicBlock) bool { return b == exitTo }, func(b *ssa.BasicBlock) bool { return b == cc.Block() }) != nil {
-							again = true
+						if b == patDef {
+							return true
 						}
+						_, isRet := b.Instrs[len(b.Instrs)-1].(*ssa.Return)
+						return isRet
+					})
+					if esc != nil {
+						again = false
 					}
 				}
 				if usesRes && len(exits) > 0 && again {
